@@ -22,7 +22,7 @@ TEXT_POOL = ['txt', 'a b', 'x > y + z', 'item', 'l1', ' sp ']
 
 def base_opt(prop):
     names = mk.PLAIN + mk.VOID
-    if prop == 'C01': return dict(names=names, p_noname=.2, p_class=.25, p_id=.1, p_attr=.1, p_text=.1, p_rep=.2, attr_pool=ATTR_POOL[:7], text_pool=TEXT_POOL, p_group=.25, p_grep=.4, max_rep=3)
+    if prop == 'C01': return dict(names=names, p_void_child=.25, p_noname=.2, p_class=.25, p_id=.1, p_attr=.1, p_text=.1, p_rep=.2, attr_pool=ATTR_POOL[:7], text_pool=TEXT_POOL, p_group=.25, p_grep=.4, max_rep=3)
     if prop == 'C02': return dict(names=[n for n in mk.PLAIN if n not in ('select', 'option', 'optgroup')], p_noname=.05, p_class=.4, p_id=0, p_attr=.3, p_text=.35, p_rep=.45, attr_pool=[ATTR_POOL[0], ATTR_POOL[2], ATTR_POOL[5]], text_pool=TEXT_POOL[:5],
                                   p_group=.25, p_grep=.6, max_rep=4, num=.6)
     if prop == 'C03': return dict(names=['div', 'p', 'span', 'section', 'x', 'ul', 'li', 'em', 'h1', 'td'], p_noname=.15, p_class=.6, p_id=.4, p_attr=.8, p_text=.1, p_rep=.1, attr_pool=ATTR_POOL, text_pool=TEXT_POOL[:2],
@@ -79,9 +79,9 @@ def cases(tier, seed, prop):
     out = []
     opt = base_opt(prop)
     if prop == 'C01':
-        sk = skeletons(3 if tier == 'quick' else 4)
+        sk = skeletons(4)
         for i, s in enumerate(sk):
-            for ci in ((0, 1) if tier == 'quick' else (0, 1, 2, 3)):
+            for ci in ((i % 2,) if tier == 'quick' else (0, 1, 2, 3)):
                 out.append({'seq': s, 'c': C01_CFGS[ci], 'g': 'skeleton'})
         n = 3000 if tier == 'quick' else 40000
         for _ in range(n):
